@@ -147,6 +147,9 @@ type LibGen struct {
 	prop   string
 	// always Sync right after Create (a never-synced file has an all-zero header on disk)
 	alwaysSync bool
+	// the file was re-created in place over an older one: what the old file held inside the
+	// new size is still there, so the archives no longer hold only what whispertool wrote
+	recreated bool
 }
 
 var xffChoices = []float32{0, 0, 0.5, 1, 0.2, 0.25, 0.3333333, 0.34, 0.1, 0.99, 1e-9, 0.6, 0.3, 0.7, 0.4, 0.9}
@@ -441,6 +444,7 @@ func (g *LibGen) History(nSteps int) []Op {
 					nl = genLayout(g.r, false)
 				}
 				g.lay = nl
+				g.recreated = true
 				ops = append(ops, Op{"sync", sDisk}, Op{"drop", false},
 					Op{fmt.Sprintf("createover %s %d %08x", g.lay, g.agg, g.xff), true},
 					Op{fmt.Sprintf("disk %d", g.lay.HdrSize()), true}, Op{"header", true},
